@@ -4,6 +4,8 @@ import (
 	"fmt"
 	"os"
 	"strings"
+	"sync"
+	"sync/atomic"
 
 	"gvh/c09lab"
 	"gvh/common"
@@ -81,17 +83,20 @@ func diag(h *c09lab.History, ho *c09lab.HistoryObs, sets []c09lab.OptionSet) {
 func hist(a map[string]string) {
 	seed := common.ArgU64(a, "seed", 1)
 	n := common.ArgInt(a, "n", 5)
+	workers := common.ArgInt(a, "workers", 6)
 	minLen, maxLen := common.ArgInt(a, "minlen", 5), common.ArgInt(a, "maxlen", 30)
 	out := common.NewOut(a["out"])
 	defer out.Close()
-	exec, err := fedlab.NewExecServer("")
-	if err != nil {
-		fmt.Fprintln(os.Stderr, "exec:", err)
-		os.Exit(1)
-	}
-	defer exec.Close()
 	fixed := c09lab.AllFixed()
 	r := common.NewRand(seed)
+	type item struct {
+		h     *c09lab.History
+		useed uint64
+		sets  []c09lab.OptionSet
+		line  string
+		ho    *c09lab.HistoryObs
+	}
+	items := make([]*item, n)
 	for i := 0; i < n; i++ {
 		fx := fixed[i%len(fixed)]
 		if a["cfg"] != "" {
@@ -100,15 +105,48 @@ func hist(a map[string]string) {
 		useed := r.Uint64() % 1000000
 		u := fx.Universe(common.NewRand(useed))
 		h := c09lab.GenHistory(r, fx.Name, fx.Config, u, minLen, maxLen)
-		sets := pickSets(r, a["opts"])
-		ho, err := c09lab.Observe(h, exec, sets)
-		if err != nil {
-			fmt.Fprintln(os.Stderr, "observe:", err)
-			os.Exit(1)
-		}
+		items[i] = &item{h: h, useed: useed, sets: pickSets(r, a["opts"])}
+	}
+	if workers < 1 {
+		workers = 1
+	}
+	var wg sync.WaitGroup
+	next := make(chan *item, n)
+	for _, it := range items {
+		next <- it
+	}
+	close(next)
+	var failed atomic.Value
+	for w := 0; w < workers; w++ {
+		wg.Add(1)
+		go func() {
+			defer wg.Done()
+			exec, err := fedlab.NewExecServer("")
+			if err != nil {
+				failed.Store(err.Error())
+				return
+			}
+			defer exec.Close()
+			for it := range next {
+				ho, err := c09lab.Observe(it.h, exec, it.sets)
+				if err != nil {
+					failed.Store(err.Error())
+					return
+				}
+				it.ho = ho
+				it.line = ho.Sexp(it.h, it.useed, it.sets)
+			}
+		}()
+	}
+	wg.Wait()
+	if v := failed.Load(); v != nil {
+		fmt.Fprintln(os.Stderr, "observe:", v)
+		os.Exit(1)
+	}
+	for _, it := range items {
 		if a["diag"] == "1" {
-			diag(h, ho, sets)
+			diag(it.h, it.ho, it.sets)
 		}
-		out.Line(ho.Sexp(h, useed, sets))
+		out.Line(it.line)
 	}
 }
